@@ -58,6 +58,52 @@ def run_patch(patch, props=None, jobs=16):
     return res
 
 
+def run_for(pid, out=sys.stdout, jobs=16):
+    """Thorough tier of one property: replay the kept seeded changes of that
+    property on scratch copies of the CURRENT tree; its own check must
+    report each of them.  A patch that no longer applies to the current tree
+    is skipped (said so), not failed.  -> (failures, replayed, skipped)"""
+    root = os.path.join(VERIF, 'seeded')
+    bad = n = skipped = 0
+    rows = []
+    for name in sorted(os.listdir(root)) if os.path.isdir(root) else []:
+        mp = os.path.join(root, name, 'meta.json')
+        pp = os.path.join(root, name, 'patch.diff')
+        if not (os.path.exists(mp) and os.path.exists(pp)):
+            continue
+        meta = json.load(open(mp))
+        if meta['property'] != pid:
+            continue
+        try:
+            res = run_patch(pp, [pid], jobs=1)
+        except RuntimeError:
+            skipped += 1
+            rows.append({'change': name, 'result': 'patch does not apply to '
+                         'the current tree: skipped'})
+            continue
+        n += 1
+        (_, rc, fired, text), = res
+        ok = rc == 1 and bool(fired)
+        rows.append({'change': name, 'reported_by': fired,
+                     'result': 'reported' if ok else 'NOT reported'})
+        if not ok:
+            bad += 1
+            print('SEEDED-FAIL kept change %s is not reported by the check '
+                  'of %s (rc=%d)' % (name, pid, rc), file=out)
+    print('seeded %s: %d kept changes replayed, %d skipped, %d failures' % (
+        pid, n, skipped, bad), file=out)
+    p = os.path.join(VERIF, 'evidence', pid + '.json')
+    if os.path.exists(p):
+        with open(p) as f:
+            ev = json.load(f)
+        ev['coverage']['seeded_replay'] = {
+            'replayed': n, 'skipped': skipped, 'failures': bad,
+            'changes': rows}
+        with open(p, 'w') as f:
+            json.dump(ev, f, indent=1, default=str)
+    return bad, n, skipped
+
+
 def main(argv):
     if argv:
         res = run_patch(argv[0])
